@@ -69,7 +69,7 @@ class C08(Prop):
         #    the uniform cells are exact floats and MD sees loss == 0 before assigning marginals)
         for eng in ENGINES:
             for it in (1, 5):
-                for shape, total in (([2, 4, 2], 16.0), ([2, 2, 2], 8.0), ([4, 4], 32.0), ([2, 2, 4, 2], 64.0)):
+                for shape, total in (([2, 4, 2], 16.0), ([2, 2, 2], 8.0), ([4, 4], 32.0), ([2, 2, 2, 2], 16.0)):
                     dom = [[MC.ATTRS[i], s] for i, s in enumerate(shape)]
                     at = MC.dom_attrs(dom)
                     ms = [dict(proj=at[:2], q='I', noise=1.0, exact=True), dict(proj=[at[1]], q='N', noise=2.0, exact=True)]
@@ -101,6 +101,9 @@ class C08(Prop):
     def finding_key(self, case, clause, detail):
         if clause == 'estimate-returns-model':
             return 'bounded:estimate-returns-model:%s:%s' % (case['engine'], 'empty-measurements' if not case['ms'] else 'measurements')
+        if (detail or {}).get('max_abs_potential', 0) >= 1e15:
+            # float cancellation regime of belief propagation (potentials beyond 1/eps): keyed separately, still a violation
+            return 'bounded:%s:potentials>=1e15' % clause
         return 'bounded:%s' % clause
 
     # ------------------------------------------------------------------ driver
@@ -117,6 +120,14 @@ class C08(Prop):
         ms, _ = MC.build_measurements(dom, case['ms'], truth, rng)
         zeros = MC.zeros_dict(case['zeros'])
         out = []
+        res = self._run(case, dom, attrs, domain, rng, ms, zeros, out)
+        pm = self._pmax
+        return [(c, ok, d if ok else dict(d, max_abs_potential=pm)) for c, ok, d in res]
+
+    def _run(self, case, dom, attrs, domain, rng, ms, zeros, out):
+        import numpy as np, copy
+        from mbi import FactoredInference
+        self._pmax = 0.0
         engine = FactoredInference(domain, iters=case['iters'], structural_zeros=zeros)
         try:
             model = engine.estimate(ms, total=case['total'], engine=case['engine'])
@@ -125,6 +136,11 @@ class C08(Prop):
                                                            measurements=len(ms), iters=case['iters']))]
         out.append(('estimate-returns-model', model is not None and hasattr(model, 'potentials'), {}))
         total = float(model.total)
+        for f in model.potentials.values():
+            v = np.asarray(f.values, dtype=float)
+            v = np.abs(v[np.isfinite(v)])
+            if v.size:
+                self._pmax = max(self._pmax, float(v.max()))
         has_marg = hasattr(model, 'marginals')
         joint = MC.joint_table(model)
         atol = 1e-9 * total
